@@ -32,6 +32,8 @@ func installLockHooks(k *sim.Kernel) bool {
 	return true
 }
 
+func init() { LockSeamAll = !sim.RaceEnabled }
+
 func removeLockHooks() {
 	simhook.Acquire, simhook.Release = nil, nil
 }
